@@ -115,31 +115,11 @@ theorem applyGate1_congr {v v' : Nat → Option Val} (free : String → Option R
     simp only
     rw [evalPars_congr free ps (by rw [deps_gateArgs _ _ _ hg]; exact h)]
 
-theorem applyGates_congr {v v' : Nat → Option Val} (free : String → Option Rat) (l : List Cmd)
-    (h : ∀ x ∈ l, ∀ m ∈ x.pars.filterMap Par.dep, v m = v' m) : applyGates free v l = applyGates free v' l := by
-  induction l with
-  | nil => rfl
-  | cons c rest ih =>
-    simp only [applyGates]
-    rw [applyGate1_congr free c (h c (List.mem_cons_self ..)), ih (fun x hx => h x (List.mem_cons_of_mem _ hx))]
-
-theorem mzDaggerSeq_deps (pin pex : Par) (a b : Nat) :
-    ∀ x ∈ mzDaggerSeq pin pex a b, ∀ m ∈ x.pars.filterMap Par.dep, m ∈ [pin, pex].filterMap Par.dep := by
-  intro x hx m hm
-  simp only [mzDaggerSeq, List.mem_cons, List.not_mem_nil, or_false] at hx
-  rcases hx with rfl | rfl | rfl | rfl
-  · simp [Par.dep] at hm
-  · simp only [List.filterMap_cons, List.filterMap_nil] at hm ⊢
-    cases hd : pin.dep with
-    | none => simp [hd] at hm
-    | some k => simp [hd] at hm ⊢; exact Or.inl hm
-  · simp [Par.dep] at hm
-  · simp only [List.filterMap_cons, List.filterMap_nil] at hm ⊢
-    cases hd : pex.dep with
-    | none => simp [hd] at hm
-    | some k =>
-      simp only [hd, List.mem_cons, List.not_mem_nil, or_false] at hm
-      cases pin.dep <;> simp [hm]
+theorem mzCalls_congr {v v' : Nat → Option Val} (free : String → Option Rat) (dg : Bool) (pin pex : Par) (a b : Nat)
+    (h : ∀ m ∈ [pin, pex].filterMap Par.dep, v m = v' m) :
+    mzCalls free v dg pin pex a b = mzCalls free v' dg pin pex a b := by
+  unfold mzCalls
+  rw [evalPars_congr free [pin, pex] h]
 
 /-- two run states are similar w.r.t. a set `D` of modes: same position in the outcome stream and the
 same measured values on `D` -/
@@ -174,9 +154,8 @@ theorem applyCmd_sim (free : String → Option Rat) (outc : Nat → List Rat) (c
     have hst : ∀ m ∈ D, st.vals m = st'.vals m := fun m hm => hD m hm (by simp [hk])
     split
     · rename_i pin pex a b hmz hp hr
-      rw [applyGates_congr free (mzDaggerSeq pin pex a b) (fun x hx m hm => hdeps m (by
-        rw [hp]; exact mzDaggerSeq_deps pin pex a b x hx m hm))]
-      cases applyGates free st'.vals (mzDaggerSeq pin pex a b) with
+      rw [mzCalls_congr free c.dagger pin pex a b (fun m hm => hdeps m (by rw [hp]; exact hm))]
+      cases mzCalls free st'.vals c.dagger pin pex a b with
       | error e => exact rfl
       | ok t => exact ⟨rfl, hpos, hst⟩
     · rw [applyGate1_congr free c hdeps]
